@@ -176,6 +176,26 @@ Section History.
 
   Definition hist := list (req * reply).
 
+  (* unfolding equations of [trace_from] *)
+  Lemma trace_from_nil : forall c, trace_from H K cf c [] = [].
+  Proof. reflexivity. Qed.
+
+  Lemma trace_from_req : forall c q rest,
+    trace_from H K cf c (OReq q :: rest) =
+    (q, snd (step H K cf c q)) :: trace_from H K cf (fst (step H K cf c q)) rest.
+  Proof.
+    intros c q rest. unfold trace_from. cbn [etrace_from step_op].
+    destruct (step H K cf c q) as [c' rp]. reflexivity.
+  Qed.
+
+  Lemma trace_from_clear : forall c rest,
+    trace_from H K cf c (OClear :: rest) = trace_from H K cf [] rest.
+  Proof. reflexivity. Qed.
+
+  Lemma trace_from_observe : forall c rest,
+    trace_from H K cf c (OObserve :: rest) = trace_from H K cf c rest.
+  Proof. reflexivity. Qed.
+
   (* a cache entry was stored by an earlier uncached, exception-free request
      with this key, holds exactly that request's reply, stamped with its time *)
   Definition entry_ok (h : hist) (e : entry) : Prop :=
@@ -186,9 +206,13 @@ Section History.
 
   Definition Inv (h : hist) (c : cache) : Prop := forall e, In e c -> entry_ok h e.
 
+  Lemma Inv_nil : forall h, Inv h [].
+  Proof. intros h e []. Qed.
+
   (* reply [ri] to request [qi] at position [i] of the trace [tr] is either
-     computed by the gate from what the agents said at [i], or is the reply of
-     an earlier uncached request with the same key, still within TTL *)
+     computed by the gate from what the agents said at [i] (and the agents
+     were handed exactly the prompt), or is the reply of an earlier uncached
+     request with the same key, still within TTL (and no agent was asked) *)
   Definition justified (tr : hist) (i : nat) (qi : req) (ri : reply) : Prop :=
     if r_cached ri then
       exists j qj rj,
@@ -196,10 +220,10 @@ Section History.
         K (q_prompt qj) = K (q_prompt qi) /\ r_cached rj = false /\
         r_core ri = r_core rj /\ r_core rj = outcome H cf qj /\
         q_time qi - q_time qj < cf_ttl cf /\ cf_cache cf = true /\
-        r_exec_called ri = false /\ r_assess_called ri = false
+        r_exec_called ri = false /\ r_assess_called ri = false /\ r_shown ri = None
     else
       r_core ri = outcome H cf qi /\ r_exec_called ri = true /\
-      r_assess_called ri = negb (raised (q_exec qi)).
+      r_assess_called ri = negb (raised (q_exec qi)) /\ r_shown ri = Some (q_prompt qi).
 
   Lemma entry_ok_app : forall h l e, entry_ok h e -> entry_ok (h ++ l) e.
   Proof.
@@ -221,7 +245,7 @@ Section History.
       let exn := raised (q_exec q) || raised (q_assess q) in
       let c2 := if cf_cache cf && negb exn
                 then evict (cf_cap cf) (set_entry (K (q_prompt q)) (res, q_time q) c1) else c1 in
-      let rp := mkReply res false true (negb (raised (q_exec q))) (length c2) in
+      let rp := mkReply res false true (negb (raised (q_exec q))) (Some (q_prompt q)) (length c2) in
       (forall tl, justified (h ++ (q, rp) :: tl) (length h) q rp) /\ Inv (h ++ [(q, rp)]) c2.
   Proof.
     intros h c1 q HI res exn c2 rp. split.
@@ -269,56 +293,63 @@ Section History.
   Qed.
 
   Lemma trace_from_justified :
-    forall qs h c, Inv h c ->
-      forall i qi ri, nth_error (trace_from H K cf c qs) i = Some (qi, ri) ->
-        justified (h ++ trace_from H K cf c qs) (length h + i) qi ri.
+    forall ops h c, Inv h c ->
+      forall i qi ri, nth_error (trace_from H K cf c ops) i = Some (qi, ri) ->
+        justified (h ++ trace_from H K cf c ops) (length h + i) qi ri.
   Proof.
-    induction qs as [|q rest IH]; intros h c HI i qi ri Hn.
+    induction ops as [|o rest IH]; intros h c HI i qi ri Hn.
     - destruct i; discriminate.
-    - cbn [trace_from] in *. destruct (step H K cf c q) as [c' rp] eqn:Hs.
-      destruct (step_ok h c q c' rp HI Hs) as [Hj HI'].
-      destruct i as [|i].
-      + cbn in Hn. inversion Hn; subst qi ri. rewrite Nat.add_0_r. apply Hj.
-      + cbn [nth_error] in Hn.
-        pose proof (IH (h ++ [(q, rp)]) c' HI' i qi ri Hn) as J.
-        rewrite <- app_assoc in J. cbn [app] in J.
-        rewrite app_length in J. cbn [length] in J.
-        replace (length h + 1 + i)%nat with (length h + S i)%nat in J by lia. exact J.
+    - destruct o as [q| |].
+      + rewrite trace_from_req in *.
+        destruct (step H K cf c q) as [c' rp] eqn:Hs. cbn [fst snd] in *.
+        destruct (step_ok h c q c' rp HI Hs) as [Hj HI'].
+        destruct i as [|i].
+        * cbn in Hn. inversion Hn; subst qi ri. rewrite Nat.add_0_r. apply Hj.
+        * cbn [nth_error] in Hn.
+          pose proof (IH (h ++ [(q, rp)]) c' HI' i qi ri Hn) as J.
+          rewrite <- app_assoc in J. cbn [app] in J.
+          rewrite app_length in J. cbn [length] in J.
+          replace (length h + 1 + i)%nat with (length h + S i)%nat in J by lia. exact J.
+      + rewrite trace_from_clear in *. apply IH; [apply Inv_nil | exact Hn].
+      + rewrite trace_from_observe in *. apply IH; [exact HI | exact Hn].
   Qed.
 
   Lemma trace_justified :
-    forall qs i qi ri, nth_error (trace H K cf qs) i = Some (qi, ri) ->
-      justified (trace H K cf qs) i qi ri.
+    forall ops i qi ri, nth_error (trace H K cf ops) i = Some (qi, ri) ->
+      justified (trace H K cf ops) i qi ri.
   Proof.
-    intros qs i qi ri Hn.
-    apply (trace_from_justified qs [] [] (fun e (F : In e []) => match F with end) i qi ri Hn).
+    intros ops i qi ri Hn.
+    apply (trace_from_justified ops [] [] (Inv_nil []) i qi ri Hn).
   Qed.
 
-  Lemma trace_from_reqs : forall qs c, map fst (trace_from H K cf c qs) = qs.
+  Lemma trace_from_In : forall ops c q r, In (q, r) (trace_from H K cf c ops) -> In (OReq q) ops.
   Proof.
-    induction qs as [|q rest IH]; intros c; [reflexivity|].
-    cbn [trace_from]. destruct (step H K cf c q) as [c' rp]. cbn. rewrite IH. reflexivity.
+    induction ops as [|o rest IH]; intros c q r Hi; [destruct Hi|].
+    destruct o as [q0| |].
+    - rewrite trace_from_req in Hi. destruct Hi as [E|Hi].
+      + inversion E; subst. left; reflexivity.
+      + right. eapply IH; exact Hi.
+    - rewrite trace_from_clear in Hi. right. eapply IH; exact Hi.
+    - rewrite trace_from_observe in Hi. right. eapply IH; exact Hi.
   Qed.
 
-  Lemma trace_In : forall qs i qi ri, nth_error (trace H K cf qs) i = Some (qi, ri) -> In qi qs.
+  Lemma trace_In : forall ops i qi ri, nth_error (trace H K cf ops) i = Some (qi, ri) -> In (OReq qi) ops.
   Proof.
-    intros qs i qi ri Hn.
-    rewrite <- (trace_from_reqs qs []). change qi with (fst (qi, ri)).
-    apply in_map. eapply nth_error_In. exact Hn.
+    intros ops i qi ri Hn. eapply trace_from_In. eapply nth_error_In. exact Hn.
   Qed.
 
-  Definition K_injective_on (qs : list req) : Prop :=
-    forall a b, In a qs -> In b qs -> K (q_prompt a) = K (q_prompt b) -> q_prompt a = q_prompt b.
+  Definition K_injective_on (ops : list op) : Prop :=
+    forall a b, In (OReq a) ops -> In (OReq b) ops -> K (q_prompt a) = K (q_prompt b) -> q_prompt a = q_prompt b.
 
   (* every reply goes back to one uncached request with the same cache key *)
   Lemma origin :
-    forall qs i qi ri, nth_error (trace H K cf qs) i = Some (qi, ri) ->
+    forall ops i qi ri, nth_error (trace H K cf ops) i = Some (qi, ri) ->
       exists j qj rj,
-        (j <= i)%nat /\ nth_error (trace H K cf qs) j = Some (qj, rj) /\
+        (j <= i)%nat /\ nth_error (trace H K cf ops) j = Some (qj, rj) /\
         K (q_prompt qj) = K (q_prompt qi) /\ r_cached rj = false /\
         r_core ri = outcome H cf qj /\ (r_cached ri = false -> j = i).
   Proof.
-    intros qs i qi ri Hn. pose proof (trace_justified qs i qi ri Hn) as J.
+    intros ops i qi ri Hn. pose proof (trace_justified ops i qi ri Hn) as J.
     unfold justified in J. destruct (r_cached ri) eqn:Ec.
     - destruct J as (j & qj & rj & Hlt & Hj & Hk & Hc & Hcore & Ho & _).
       exists j, qj, rj. repeat split; auto; try lia; try congruence.
@@ -326,73 +357,107 @@ Section History.
   Qed.
 
   Lemma fresh_reply_proof :
-    forall qs i qi ri, nth_error (trace H K cf qs) i = Some (qi, ri) -> r_cached ri = false ->
+    forall ops i qi ri, nth_error (trace H K cf ops) i = Some (qi, ri) -> r_cached ri = false ->
       r_core ri = outcome H cf qi /\ r_exec_called ri = true /\
-      r_assess_called ri = negb (raised (q_exec qi)).
+      r_assess_called ri = negb (raised (q_exec qi)) /\ r_shown ri = Some (q_prompt qi).
   Proof.
-    intros qs i qi ri Hn Ec. pose proof (trace_justified qs i qi ri Hn) as J.
+    intros ops i qi ri Hn Ec. pose proof (trace_justified ops i qi ri Hn) as J.
     unfold justified in J. rewrite Ec in J. exact J.
   Qed.
 
+  (* the agents are consulted exactly for the replies that are not served
+     from the cache *)
+  Lemma consulted_iff_not_cached_proof :
+    forall ops i qi ri, nth_error (trace H K cf ops) i = Some (qi, ri) ->
+      r_exec_called ri = negb (r_cached ri) /\
+      (r_assess_called ri = true -> r_cached ri = false) /\
+      (r_shown ri <> None -> r_cached ri = false).
+  Proof.
+    intros ops i qi ri Hn. pose proof (trace_justified ops i qi ri Hn) as J.
+    unfold justified in J. destruct (r_cached ri) eqn:Ec.
+    - destruct J as (j & qj & rj & _ & _ & _ & _ & _ & _ & _ & _ & A & B & C).
+      rewrite A, B, C. repeat split; intros; congruence.
+    - destruct J as (_ & A & _). rewrite A. repeat split; intros; reflexivity.
+  Qed.
+
+  (* any agent exception yields blocked, whatever the cache holds: a request at
+     which an agent was invoked and an invoked agent raised comes back as the
+     blocked ERROR result without a token, and is not marked cached *)
+  Lemma history_exception_blocks_proof :
+    forall ops i qi ri, nth_error (trace H K cf ops) i = Some (qi, ri) ->
+      r_exec_called ri = true \/ r_assess_called ri = true \/ r_cached ri = false ->
+      q_exec qi = VRaised \/ q_assess qi = VRaised ->
+      r_core ri = mkCore false AError true None /\ r_cached ri = false.
+  Proof.
+    intros ops i qi ri Hn Hc He.
+    destruct (consulted_iff_not_cached_proof ops i qi ri Hn) as (A & B & _).
+    assert (Ec : r_cached ri = false).
+    { destruct Hc as [Hc | [Hc | Hc]]; [| auto | exact Hc].
+      rewrite Hc in A. destruct (r_cached ri); [discriminate | reflexivity]. }
+    split; [|exact Ec].
+    destruct (fresh_reply_proof ops i qi ri Hn Ec) as (Ho & _).
+    rewrite Ho. unfold outcome. rewrite (exception_blocks_proof _ _ _ He). reflexivity.
+  Qed.
+
   Lemma cache_same_key_proof :
-    forall qs i qi ri, nth_error (trace H K cf qs) i = Some (qi, ri) -> r_cached ri = true ->
+    forall ops i qi ri, nth_error (trace H K cf ops) i = Some (qi, ri) -> r_cached ri = true ->
       exists j qj rj,
-        (j < i)%nat /\ nth_error (trace H K cf qs) j = Some (qj, rj) /\
+        (j < i)%nat /\ nth_error (trace H K cf ops) j = Some (qj, rj) /\
         K (q_prompt qj) = K (q_prompt qi) /\ r_cached rj = false /\
         r_core ri = r_core rj /\ r_core rj = outcome H cf qj /\
         q_time qi - q_time qj < cf_ttl cf /\
         r_exec_called ri = false /\ r_assess_called ri = false.
   Proof.
-    intros qs i qi ri Hn Ec. pose proof (trace_justified qs i qi ri Hn) as J.
+    intros ops i qi ri Hn Ec. pose proof (trace_justified ops i qi ri Hn) as J.
     unfold justified in J. rewrite Ec in J.
-    destruct J as (j & qj & rj & A1 & A2 & A3 & A4 & A5 & A6 & A7 & _ & A9 & A10).
+    destruct J as (j & qj & rj & A1 & A2 & A3 & A4 & A5 & A6 & A7 & _ & A9 & A10 & _).
     exists j, qj, rj. auto 12.
   Qed.
 
   Lemma cache_same_verdict_proof :
-    forall qs, K_injective_on qs ->
-    forall i qi ri, nth_error (trace H K cf qs) i = Some (qi, ri) -> r_cached ri = true ->
+    forall ops, K_injective_on ops ->
+    forall i qi ri, nth_error (trace H K cf ops) i = Some (qi, ri) -> r_cached ri = true ->
       exists j qj rj,
-        (j < i)%nat /\ nth_error (trace H K cf qs) j = Some (qj, rj) /\
+        (j < i)%nat /\ nth_error (trace H K cf ops) j = Some (qj, rj) /\
         q_prompt qj = q_prompt qi /\ r_cached rj = false /\
         r_core ri = r_core rj /\ r_core rj = outcome H cf qj /\
         q_time qi - q_time qj < cf_ttl cf /\
         r_exec_called ri = false /\ r_assess_called ri = false.
   Proof.
-    intros qs Hinj i qi ri Hn Ec.
-    destruct (cache_same_key_proof qs i qi ri Hn Ec)
+    intros ops Hinj i qi ri Hn Ec.
+    destruct (cache_same_key_proof ops i qi ri Hn Ec)
       as (j & qj & rj & A1 & A2 & A3 & rest).
     exists j, qj, rj. split; [exact A1|]. split; [exact A2|]. split; [|exact rest].
     apply Hinj; [eapply trace_In; exact A2 | eapply trace_In; exact Hn | exact A3].
   Qed.
 
   Lemma history_pass_only_if_proof :
-    forall qs i qi ri, nth_error (trace H K cf qs) i = Some (qi, ri) ->
+    forall ops i qi ri, nth_error (trace H K cf ops) i = Some (qi, ri) ->
       c_blocked (r_core ri) = false ->
       exists j qj rj,
-        (j <= i)%nat /\ nth_error (trace H K cf qs) j = Some (qj, rj) /\
+        (j <= i)%nat /\ nth_error (trace H K cf ops) j = Some (qj, rj) /\
         K (q_prompt qj) = K (q_prompt qi) /\ r_cached rj = false /\
         (r_cached ri = false -> j = i) /\
         spec_pass (cf_logic cf) (q_exec qj) (q_assess qj) = true.
   Proof.
-    intros qs i qi ri Hn Hb.
-    destruct (origin qs i qi ri Hn) as (j & qj & rj & A1 & A2 & A3 & A4 & A5 & A6).
+    intros ops i qi ri Hn Hb.
+    destruct (origin ops i qi ri Hn) as (j & qj & rj & A1 & A2 & A3 & A4 & A5 & A6).
     exists j, qj, rj. repeat split; auto.
     apply pass_iff_proof. rewrite A5 in Hb. exact Hb.
   Qed.
 
   Lemma history_token_bound_proof :
-    forall qs, K_injective_on qs ->
-    forall i qi ri t, nth_error (trace H K cf qs) i = Some (qi, ri) ->
+    forall ops, K_injective_on ops ->
+    forall i qi ri t, nth_error (trace H K cf ops) i = Some (qi, ri) ->
       c_token (r_core ri) = Some t ->
       tk_hash t = H (q_prompt qi) /\ tk_issuer t = cf_assessor cf /\
       c_blocked (r_core ri) = false /\
       exists j qj rj,
-        (j <= i)%nat /\ nth_error (trace H K cf qs) j = Some (qj, rj) /\
+        (j <= i)%nat /\ nth_error (trace H K cf ops) j = Some (qj, rj) /\
         q_prompt qj = q_prompt qi /\ r_cached rj = false /\ q_assess qj = VPermit.
   Proof.
-    intros qs Hinj i qi ri t Hn Ht.
-    destruct (origin qs i qi ri Hn) as (j & qj & rj & A1 & A2 & A3 & A4 & A5 & _).
+    intros ops Hinj i qi ri t Hn Ht.
+    destruct (origin ops i qi ri Hn) as (j & qj & rj & A1 & A2 & A3 & A4 & A5 & _).
     assert (Hp : q_prompt qj = q_prompt qi)
       by (apply Hinj; [eapply trace_In; exact A2 | eapply trace_In; exact Hn | exact A3]).
     rewrite A5 in Ht |- *.
@@ -401,4 +466,87 @@ Section History.
     rewrite <- Hp. repeat split; auto.
     exists j, qj, rj. repeat split; auto.
   Qed.
+
+  (* a token is good for one request only: two replies of a history (cached or
+     not) whose tokens carry the same hash answer the same prompt *)
+  Definition H_injective_on (ops : list op) : Prop :=
+    forall a b, In (OReq a) ops -> In (OReq b) ops -> H (q_prompt a) = H (q_prompt b) -> q_prompt a = q_prompt b.
+
+  Lemma tokens_not_interchangeable_proof :
+    forall ops, K_injective_on ops -> H_injective_on ops ->
+    forall i qi ri ti j qj rj tj,
+      nth_error (trace H K cf ops) i = Some (qi, ri) -> c_token (r_core ri) = Some ti ->
+      nth_error (trace H K cf ops) j = Some (qj, rj) -> c_token (r_core rj) = Some tj ->
+      tk_hash ti = tk_hash tj -> q_prompt qi = q_prompt qj.
+  Proof.
+    intros ops HK HH i qi ri ti j qj rj tj Hi Ti Hj Tj E.
+    destruct (history_token_bound_proof ops HK i qi ri ti Hi Ti) as (A & _).
+    destruct (history_token_bound_proof ops HK j qj rj tj Hj Tj) as (B & _).
+    apply HH; [eapply trace_In; exact Hi | eapply trace_In; exact Hj | congruence].
+  Qed.
+
+  (* ---------------------------------------------------------------------- *)
+  (* clear_cache and the read-only calls                                      *)
+
+  Lemma etrace_from_app : forall ops1 ops2 c,
+    etrace_from H K cf c (ops1 ++ ops2) =
+    etrace_from H K cf c ops1 ++ etrace_from H K cf (cache_after H K cf c ops1) ops2.
+  Proof.
+    induction ops1 as [|o rest IH]; intros ops2 c; [reflexivity|].
+    cbn [app etrace_from cache_after].
+    destruct (step_op H K cf c o) as [c' e]. cbn [fst app]. rewrite IH. reflexivity.
+  Qed.
+
+  Lemma reqs_of_app : forall a b, reqs_of (a ++ b) = reqs_of a ++ reqs_of b.
+  Proof. intros a b. unfold reqs_of. apply flat_map_app. Qed.
+
+  (* after clear_cache() the loop answers as a new one does: the replies of a
+     history with a clear in it are those of the part before, followed by those
+     of the part after run against a fresh loop *)
+  Lemma clear_forgets_proof :
+    forall ops1 ops2,
+      trace H K cf (ops1 ++ OClear :: ops2) = trace H K cf ops1 ++ trace H K cf ops2.
+  Proof.
+    intros ops1 ops2. unfold trace, trace_from.
+    rewrite etrace_from_app, reqs_of_app. reflexivity.
+  Qed.
+
+  (* the read-only calls change nothing *)
+  Lemma observe_noop_proof :
+    forall ops1 ops2,
+      trace H K cf (ops1 ++ OObserve :: ops2) = trace H K cf (ops1 ++ ops2).
+  Proof.
+    intros ops1 ops2. unfold trace, trace_from.
+    rewrite !etrace_from_app, !reqs_of_app. reflexivity.
+  Qed.
 End History.
+
+(* ---------------------------------------------------------------------- *)
+(* two loop objects do not influence each other                            *)
+
+Lemma loops_isolated_from :
+  forall (H K : str -> str) cf0 cf1 tops c0 c1 b,
+    proj b (sys_from H K cf0 cf1 c0 c1 tops) =
+    etrace_from H K (if b then cf1 else cf0) (if b then c1 else c0) (proj b tops).
+Proof.
+  intros H K cf0 cf1. unfold proj.
+  induction tops as [|[t o] rest IH]; intros c0 c1 b; [reflexivity|].
+  cbn [sys_from]. destruct t.
+  - destruct (step_op H K cf1 c1 o) as [c1' e] eqn:Es.
+    cbn [filter fst]. destruct b; cbn [Bool.eqb map snd].
+    + cbn [etrace_from]. rewrite Es. rewrite (IH c0 c1' true). reflexivity.
+    + rewrite (IH c0 c1' false). reflexivity.
+  - destruct (step_op H K cf0 c0 o) as [c0' e] eqn:Es.
+    cbn [filter fst]. destruct b; cbn [Bool.eqb map snd].
+    + rewrite (IH c0' c1 true). reflexivity.
+    + cbn [etrace_from]. rewrite Es. rewrite (IH c0' c1 false). reflexivity.
+Qed.
+
+Lemma loops_isolated_proof :
+  forall (H K : str -> str) cf0 cf1 tops b,
+    reqs_of (proj b (sys_trace H K cf0 cf1 tops)) =
+    trace H K (if b then cf1 else cf0) (proj b tops).
+Proof.
+  intros H K cf0 cf1 tops b. unfold sys_trace, trace, trace_from.
+  rewrite (loops_isolated_from H K cf0 cf1 tops [] [] b). destruct b; reflexivity.
+Qed.
